@@ -349,7 +349,7 @@ def _matrix(tier):
 
 SUBCHECKS = [
     Subcheck('tref_invariance', run_tref, strategy=lambda tier: _case(tier),
-             examples={'quick': 96, 'thorough': 400}, shards={'quick': 4, 'thorough': 10},
+             examples={'quick': 96, 'thorough': 1600}, shards={'quick': 4, 'thorough': 10},
              wall={'quick': 420.0, 'thorough': 1500.0},
              rule='non-trivial = T_ref profiles differ by > 1 K on >= 2 levels and a state has non-zero divergence and '
                   'non-zero grad(lnps)',
